@@ -536,6 +536,8 @@ pub fn run_prop<T: Full>(prop: &str, g: &mut Gen, b: &Budget, out: &mut Sink) {
         "C04" | "C16" | "C07" => c04::<T>(g, b, out),
         "C05" => c05::<T>(g, b, out),
         "C14" => c14::<T>(g, b, out),
+        "C11" => crate::script::c11::<T>(g, b, out),
+        "C12" => crate::script::c12::<T>(g, b, out),
         _ => {}
     }
 }
